@@ -17,7 +17,7 @@ TECHNIQUE = {
     "C02": "must-pass-through on MIR CFG (encoding detection gates the whole-text path) + sibling cross-check of slice/reader arms",
     "C03": "per-path framing obligations on MIR CFGs (dominance / post-dominance of literal writes), who-may-call, deny-list of reordering adaptors",
     "C04": "panic-edge inventory over MIR (Assert terminators + panicking callees): each edge is proved dead by a local argument (interval analysis with branch refinement, sub-slice length difference, min-with-len bounds) or must be within a reviewed multiset with re-verified dominating guards; use-once typestate; call-graph SCC budget check",
-    "C05": "who-may-call (slurping APIs, in the library and in the CLI) + def-use of Take limits to constants + order of detection trials (straight-line or table-driven) + value-flow of the size-cap comparison + per-document emptying of the capture buffer",
+    "C05": "who-may-call (slurping APIs, in the library and in the CLI) + def-use of Take limits to constants + order of detection trials (straight-line or table-driven) + value-flow of the size-cap comparison + per-document emptying of the capture buffer + path-sensitive one-pull-per-read rule over every io::Read adapter, including iterator-fed ones (one recorded finding: the UTF-16/32 re-encoder, known_findings.txt)",
     "C06": "resolved cargo feature graph + ADT field cross-check (serde_json float_roundtrip); scalar type-identity tables of both transcoding paths (visit_T -> serialize_T)",
     "C07": "decision-table equivalence (HIR pattern table vs YAML 1.2.2 section 5.2), interval analysis on MIR for from_u32_unchecked, must-pass-through for encoding detection",
     "C08": "interprocedural path-sensitive dominance over inlined MIR (guard/typestate of the TOML sink), def-use of written bytes",
